@@ -343,10 +343,18 @@ Proof. intros Ha Hi. apply forwarding_four_parts; try assumption. apply json_arr
 
 (* ---------- the code vs. the property: the nil property slice ---------- *)
 
-Lemma impl_eq_spec_off_trigger fw ct c :
-  trigger_null fw ct c = false -> impl_props_json fw ct c = spec_props_json fw ct c.
+(* today's code prints what the property demands, for every input *)
+Lemma props_json_impl_is_spec fw ct c : impl_props_json fw ct c = spec_props_json fw ct c.
 Proof.
-  unfold trigger_null, impl_props_json, spec_props_json.
+  unfold impl_props_json, spec_props_json, props_list.
+  destruct (props c); [reflexivity|]. destruct (appended fw ct c); reflexivity.
+Qed.
+
+(* facts about the PRE-fix code (before 5dc4db8) *)
+Lemma prefix_eq_spec_off_trigger fw ct c :
+  trigger_null fw ct c = false -> prefix_props_json fw ct c = spec_props_json fw ct c.
+Proof.
+  unfold trigger_null, prefix_props_json, spec_props_json.
   destruct (props c); [reflexivity|]. destruct (appended fw ct c); [discriminate | reflexivity].
 Qed.
 
@@ -355,9 +363,9 @@ Definition null_witness : fw_ctx :=
   mkCtx [49;48;46;48;46;48;46;55;58;49] [49;46;50;46;51;46;52;58;53;53;53;53]
         [0;1;2;3;4;5;6;7;8;9;10;11;12;13;14;15] None [97;58;50;53;53;54;53].
 
-Theorem null_refuted :
+Theorem prefix_null_refuted :
   trigger_null FwLegacy CtOther null_witness = true /\
-  handshake_addr None None impl_props_json FwLegacy CtOther null_witness [97]
+  handshake_addr None None prefix_props_json FwLegacy CtOther null_witness [97]
     = Some (forwarding_address json_null null_witness) /\
   bungee_parse (forwarding_address json_null null_witness) = None /\
   bungee_parse (forwarding_address (spec_props_json FwLegacy CtOther null_witness) null_witness)
